@@ -219,17 +219,38 @@ class Exec:
         raise Violation("wild-read", "%s: load from address %#x outside every region" % (self.fname, av))
 
     def load_symbolic(self, st, a, n, pcs):
-        # symbolic address: supported for the stack frame (spilled vector indexed by a register)
+        """Load at a symbolic address: the stack frame (spilled vector indexed by a register)
+        or one data region (table look-up / indexed haystack byte)."""
         lo = STK_BASE - self.framesize
-        off = simplify(a - bv(lo, 64))
-        if self.framesize == 0 or self.check(*pcs, UGT(off + bv(n, 64), bv(self.framesize, 64))) != unsat:
-            raise Unsupported("symbolic address outside the stack frame: %s" % a)
+        if self.framesize > 0:
+            off = simplify(a - bv(lo, 64))
+            if self.check(*pcs, UGT(off + bv(n, 64), bv(self.framesize, 64))) == unsat:
+                out = []
+                for i in range(n):
+                    t = bv(0, 8)
+                    for k in reversed(range(self.framesize)):
+                        if k in st.stack:
+                            t = If(off + bv(i, 64) == bv(k, 64), st.stack[k], t)
+                    out.append(t)
+                return out
+        cands = []
+        for rg in self.regions:
+            inside = And(UGE(a, bv(rg.base, 64)), ULT(a, bv(rg.base + rg.maxsize + 64, 64)))
+            if self.check(*pcs, inside) != unsat:
+                cands.append(rg)
+        if len(cands) != 1:
+            raise Unsupported("symbolic address %s may point into %d regions" % (a, len(cands)))
+        rg = cands[0]
+        off = simplify(a - bv(rg.base, 64))
+        bad = Or(ULT(a, bv(rg.base, 64)), UGT(off + bv(n, 64), rg.length))
+        if self.check(*pcs, bad) != unsat:
+            m = self.model_of(*pcs, bad)
+            raise Violation("over-read", "%s: indexed load of %d byte(s) from %s can fall outside [0,len) (model: %s)" % (self.fname, n, rg.name, compact_model(m)), m)
         out = []
         for i in range(n):
             t = bv(0, 8)
-            for k in reversed(range(self.framesize)):
-                if k in st.stack:
-                    t = If(off + bv(i, 64) == bv(k, 64), st.stack[k], t)
+            for k in reversed(range(len(rg.bytes))):
+                t = If(off + bv(i, 64) == bv(k, 64), rg.bytes[k], t)
             out.append(t)
         return out
 
